@@ -26,7 +26,7 @@ ASSUMPTIONS = ["transaction ids concrete (see C34)", "sends succeed", "allocatio
 DESIGN_REF = "DESIGN.md §5 C38"
 
 US = ["nameserver_pick.3:4", "transaction_id_pick.2:3", "vpe_strlen.0:26", "vpe_strncmp.0:26", "vpd_calloc.0:15", "evdns_base_set_max_requests_inflight.4:15",
-      "vpd_memcpy.0:130", "vpd_memcpy_var.0:30", "vpd_memset.0:130", "vpe_memcpy.0:30", "vpd_check_write.0:10"]
+      "vpd_memcpy.0:130", "vpd_memcpy_var.0:30", "vpd_memset.0:130", "vpe_memcpy.0:30", "vpd_check_write.0:10", "vpe_strcasecmp.0:3", "evdns_tree_SPLAY.4:3", "vpd_strdup.0:3", "vpd_strdup.1:4"]
 
 def ob(name, entry, desc, fam=0, socktype=1, extra=(), **kw):
     defs = ["C38_FAMILY=%d" % fam, "C38_SOCKTYPE=%d" % socktype] + list(extra)
@@ -39,12 +39,13 @@ def ob(name, entry, desc, fam=0, socktype=1, extra=(), **kw):
 def merge(fam, n4, n6, first, socktype=1, nocache=0, entry="harness_merge", kf=None, **kw):
     n = "%s_f%d_a%s_aaaa%s_first%d_st%d%s" % (entry.replace("harness_", ""), fam, str(n4).replace("-1", "x"), str(n6).replace("-1", "x"), first, socktype, "_nocache" if nocache else "")
     what = {"harness_merge": "A answer: %s, AAAA answer: %s, %s first: callback exactly once, list == A then AAAA addresses allowed by the hint (port, socktype, protocol); "
-                             "cache entry expires with the smallest contributing TTL",
-            "harness_cache": "A: %s, AAAA: %s, %s first; then a second lookup (other port) is served from the cache without a query and equals the answers; after "
-                             "evdns_ttl_expired a third lookup is queried again"}[entry]
+                             "the answer is written to the cache once with the smallest contributing TTL (cache routine replaced by a recorder)",
+            "harness_cache": "evdns_cache_write of a list with %s (IPv4) and %s (IPv6), solver-chosen TTL (%s): miss before, expiry timer == TTL, hit for the name in any case "
+                             "with equal addresses / requested port / family filter, miss for another name, miss after evdns_ttl_expired; original list untouched"}[entry]
     sa = lambda k: "NXDOMAIN" if k < 0 else "%d address(es)" % k
     d = ob(n, entry, what % (sa(n4), sa(n6), "A" if first == 4 else "AAAA"), fam=fam, socktype=socktype,
            extra=["C38_N4=%d" % n4, "C38_N6=%d" % n6, "C38_FIRST=%d" % first, "C38_NOCACHE=%d" % nocache], **kw)
+    if entry == "harness_merge": d["instrument"] = [["--replace-calls", "evdns_cache_write:c38_cache_write_rec"]]
     if kf: d.update(expect_fail=["C38: cache entry outlives the TTL of an answer it contains"], known_finding="KF-C38-cache-ttl", name=n + "_kf")
     return d
 
@@ -63,8 +64,8 @@ def obligations(tier):
     obs.append(merge(4, 2, 0, 4)); obs.append(merge(6, 0, 2, 6)); obs.append(merge(0, 2, -1, 4)); obs.append(merge(0, 0, 1, 6)); obs.append(merge(0, -1, -1, 4))
     obs.append(merge(0, 1, 1, 4, nocache=1)); obs.append(merge(0, 2, 2, 6, nocache=1)); obs.append(merge(0, 1, 1, 4, socktype=0, nocache=1))
     obs.append(merge(0, 1, 1, 4, kf=True)); obs.append(merge(0, 1, 1, 6, kf=True))
-    obs.append(merge(4, 1, 0, 4, entry="harness_cache")); obs.append(merge(0, 1, -1, 6, entry="harness_cache"))
+    obs.append(merge(4, 1, 0, 4, entry="harness_cache")); obs.append(merge(0, 1, 1, 4, entry="harness_cache")); obs.append(merge(6, 2, 0, 4, entry="harness_cache"))
     if full:
         obs.append(merge(0, 2, 1, 4, nocache=1)); obs.append(merge(0, 1, 2, 6, socktype=0, nocache=1)); obs.append(merge(0, -1, 2, 4)); obs.append(merge(0, 0, 0, 6))
-        obs.append(merge(6, 0, 1, 6, entry="harness_cache")); obs.append(merge(0, -1, 2, 4, entry="harness_cache")); obs.append(merge(4, 2, 0, 4, socktype=0))
+        obs.append(merge(6, 0, 1, 6, entry="harness_cache")); obs.append(merge(0, 2, 2, 4, entry="harness_cache")); obs.append(merge(4, 2, 0, 4, socktype=0))
     return obs
